@@ -19,6 +19,11 @@ the full statement on a concrete witness:
   * `where`: the mask is evaluated lazily (F-25);  `either_or`: two passes (F-38);
   * `FixedArray` targets are not alias-tested (F-22, documented);
   * `IndexedArray op=` with a repeated index accumulates (F-39).
+  * nested initializer list with fewer rows than the matrix: the other rows are not zeroed (`InitListRowsZeroFull`, refuted below).
+
+Compound conditional assignment `A.where(B) OP= C` is stated for the macro body of where.h with the operand spelled `array_`
+(`A.assign_conditional(B, noalias(A) OP C)`); the pinned tree writes `noalias(*this)`, which does not compile (checks/c04.py probes
+this on every run and reports the finding).
 -/
 namespace Adept.Assign
 
@@ -138,6 +143,96 @@ theorem C04_either_or_semantics_partial (lhs : View) (mask : BExpr) (c d : WRhs)
       = storeWhere lhs (maskAll mask lhs.dims m) (c.evalAll lhs.dims m)
           (storeWhere lhs (maskAll (.not mask) lhs.dims m) (d.evalAll lhs.dims m) m) :=
   whereEitherOr_semantics lhs mask c d m hw hcc hcd hmask hcav hnac hnad
+
+/-! ## compound conditional assignment `A.where(B) OP= C`, and `FixedArray.where` -/
+
+/-- `A.where(B) OP= C` (`+= -= *= /=`; coded `A.assign_conditional(B, noalias(A) OP C)`, where.h): every SELECTED element becomes
+    `old(A) OP C` with the mask and the whole of `C` — whatever its overlap with `A`: it is alias-tested — evaluated BEFORE
+    anything is stored, every unselected element keeps its value (next theorem).  The hypothesis on the mask is that of
+    `C04_where_semantics_partial` (a mask reading the target at other positions is open finding F-25, same signature). -/
+theorem C04_where_compound_semantics_partial (op : BOp) (lhs : View) (mask : BExpr) (r : WRhs) (m : Mem) (hw : lhs.WF)
+    (hinj : lhs.Injective) (hc : r.Conforms lhs.dims) (hm : SafeFor lhs.addr (idxs lhs.dims) mask.reads)
+    (hna : r.NaSafe lhs) :
+    whereCompound op lhs mask r m
+      = storeWhere lhs (maskAll mask lhs.dims m)
+          ((idxs lhs.dims).map fun ix => op.ap (m (lhs.addr ix)) (r.toExpr.evalAt m ix)) m :=
+  whereCompound_semantics op lhs mask r m hw hinj hc hm hna
+
+/-- a conditional store touches no cell all of whose positions in the target are unselected (in particular no cell outside
+    the target): "unselected elements untouched", for plain and compound `where` alike -/
+theorem C04_where_unselected_untouched (lhs : View) (bs : List Bool) (xs : List Int) (m : Mem) (a : Int)
+    (h : ∀ p ∈ lhs.cells.zip bs, p.1 = a → p.2 = false) : storeWhere lhs bs xs m a = m a :=
+  storeWhere_unselected lhs bs xs m a h
+
+/-- `F.where(B) = C` on a `FixedArray` target (`FixedArray::assign_conditional`: the same loop, NO alias test — F-22): holds when
+    mask and right-hand side are safe to read while the target is being stored -/
+theorem C04_fixed_where_semantics_partial (lhs : View) (mask : BExpr) (r : WRhs) (m : Mem) (hw : lhs.WF)
+    (hm : SafeFor lhs.addr (idxs lhs.dims) mask.reads) (hr : SafeFor lhs.addr (idxs lhs.dims) r.toExpr.reads) :
+    fixedWhereAssign lhs mask r m = storeWhere lhs (maskAll mask lhs.dims m) (r.evalAll lhs.dims m) m :=
+  fixedWhereAssign_semantics lhs mask r m hw hm hr
+
+/-- `F.where(B) OP= C` on a `FixedArray` target -/
+theorem C04_fixed_where_compound_semantics_partial (op : BOp) (lhs : View) (mask : BExpr) (r : WRhs) (m : Mem)
+    (hw : lhs.WF) (hinj : lhs.Injective) (hm : SafeFor lhs.addr (idxs lhs.dims) mask.reads)
+    (hr : SafeFor lhs.addr (idxs lhs.dims) r.toExpr.reads) :
+    fixedWhereCompound op lhs mask r m
+      = storeWhere lhs (maskAll mask lhs.dims m)
+          ((idxs lhs.dims).map fun ix => op.ap (m (lhs.addr ix)) (r.toExpr.evalAt m ix)) m :=
+  fixedWhereCompound_semantics op lhs mask r m hw hinj hm hr
+
+/-- non-vacuity: `a.where(a > 2) += a(reversed)` on `0 1 36 48 60` (mask over the target at identical positions, right-hand side
+    the reversed target: aliased, temporary) gives `0 1 72 49 60` — the hypotheses hold and unselected cells stay -/
+example : let a : View := ⟨0, [5], [1]⟩; let b : View := ⟨4, [5], [-1]⟩
+    let mask : BExpr := .cmp .gt (.leaf a) (.const 2)
+    a.WF ∧ a.Injective ∧ (WRhs.expr (.leaf b)).Conforms a.dims ∧ SafeFor a.addr (idxs a.dims) mask.reads ∧
+    (List.range 5).map (whereCompound .add a mask (.expr (.leaf b))
+        ⟨fun k => [0, 1, 36, 48, 60].getD k.toNat 0⟩ ∘ Int.ofNat) = [0, 1, 72, 49, 60] := by
+  refine ⟨⟨rfl, by decide, by decide⟩, (by show (View.cells _).Nodup; decide), ?_, ?_, by decide⟩
+  · show ∀ ix ∈ idxs [5], ix ∈ idxs [5]; exact fun ix h => h
+  · show List.Pairwise _ _; decide
+
+/-! ## initializer lists as statements -/
+
+/-- `v = {x0, x1, ..}` on a non-empty vector view of any stride (Array.h / FixedArray.h): EVERY element of the vector is set to
+    zero first, then element `j` of the list is stored at coordinate `[j]` (`C04_initlist_vector_addr`), in list order: listed
+    elements get the list's values, the underfilled remainder is zero -/
+theorem C04_initlist_vector_semantics (lhs : View) (xs : List Int) (m : Mem) (hw : lhs.WF) :
+    ilAssign1 lhs xs m
+      = storePairs (((List.range xs.length).map fun (j : Nat) => lhs.base + (j : Int) * lhs.strides.headD 0).zip xs)
+          (storeAll lhs ((idxs lhs.dims).map fun _ => 0) m) := ilAssign1_semantics lhs xs m hw
+
+/-- `data_[j*offset_[0]]` is the address of coordinate `[j]` -/
+theorem C04_initlist_vector_addr (lhs : View) (s : Int) (j : Nat) (h : lhs.strides = [s]) :
+    lhs.addr [j] = lhs.base + (j : Int) * lhs.strides.headD 0 := vector_addr lhs s j h
+
+/-- `M = {{..},{..}}`: row `i` of the list is assigned, as a vector, to the row view `M[i]`, whose coordinate `ix` is the
+    matrix's coordinate `i :: ix`; `FixedArray` zeroes the whole matrix first -/
+theorem C04_initlist_matrix_rows (lhs : View) (rows : List (List Int)) (m : Mem) :
+    ilAssign2 lhs rows m = rows.zipIdx.foldl (fun m p => ilAssign1 (lhs.sub p.2) p.1 m) m ∧
+    fixedIlAssign2 lhs rows m = ilAssign2 lhs rows (assignScalar lhs 0 m) ∧
+    ∀ (i : Nat) (ix : List Nat) (s : Int) (ss : List Int), lhs.strides = s :: ss → (lhs.sub i).addr ix = lhs.addr (i :: ix) :=
+  ⟨rfl, rfl, fun i ix s ss h => sub_addr lhs i ix s ss h⟩
+
+/-- FULL statement for nested lists (refuted, finding initlist-fewer-rows-not-zeroed): every element of the target the list
+    does not name becomes zero.  `Array` of rank 2 assigns the rows of the list only. -/
+def InitListRowsZeroFull : Prop :=
+  ∀ (lhs : View) (rows : List (List Int)) (m : Mem), lhs.WF → lhs.dims.length = 2 → rows.length ≤ lhs.dims.headD 0 →
+    ∀ i j, i < lhs.dims.headD 0 → j < lhs.dims.getD 1 0 → rows.length ≤ i → ilAssign2 lhs rows m (lhs.addr [i, j]) = 0
+
+/-- refutation: `Matrix M(2,1); M = 9; M = {{1}}` leaves `M(1,0) = 9` -/
+theorem C04_initlist_rows_zero_full_refuted : ¬ InitListRowsZeroFull := by
+  intro h
+  have := h ⟨0, [2, 1], [1, 1]⟩ [[1]] ⟨fun _ => 9⟩ ⟨rfl, by decide, by decide⟩ rfl (by decide) 1 0 (by decide) (by decide)
+    (by decide)
+  revert this
+  decide
+
+/-- the `FixedArray` form does zero them (same witness) -/
+example : fixedIlAssign2 ⟨0, [2, 1], [1, 1]⟩ [[1]] ⟨fun _ => 9⟩ 1 = 0 ∧
+    fixedIlAssign2 ⟨0, [2, 1], [1, 1]⟩ [[1]] ⟨fun _ => 9⟩ 0 = 1 := by decide
+
+/-- short vector into a reversed view: `v(stride(3,0,-1)) = {5, 6}` on `9 9 9 9` gives `0 0 6 5` -/
+example : (List.range 4).map (ilAssign1 ⟨3, [4], [-1]⟩ [5, 6] ⟨fun _ => 9⟩ ∘ Int.ofNat) = [0, 0, 6, 5] := by decide
 
 /-! ## `FixedArray` targets -/
 
